@@ -7,7 +7,8 @@ EPOCH = D.datetime(1970, 1, 1)
 
 
 def ms_to_iso(ms, sep="T", frac="auto"):
-    """ISO time string of integer epoch milliseconds. frac: 'auto' (omit when whole second), 'us' (6 digits), 'ms' (3 digits)"""
+    """ISO time string of integer epoch milliseconds. frac: 'auto' (omit when whole second), 'us' (6 digits), 'ms' (3 digits),
+    'short' (as few fraction digits as represent the milliseconds exactly: .5, .25, .125; none for a whole second)"""
     dt = EPOCH + D.timedelta(milliseconds=ms)
     base = dt.strftime("%Y-%m-%d" + sep + "%H:%M:%S")
     # strftime pads years < 1000 inconsistently across platforms; years here are >= 1900
@@ -15,6 +16,9 @@ def ms_to_iso(ms, sep="T", frac="auto"):
         return base if ms % 1000 == 0 else base + ".%06d" % dt.microsecond
     if frac == "ms":
         return base + ".%03d" % (dt.microsecond // 1000)
+    if frac == "short":
+        digits = ("%03d" % (dt.microsecond // 1000)).rstrip("0")
+        return base + ("." + digits if digits else "")
     return base + ".%06d" % dt.microsecond
 
 
